@@ -40,6 +40,11 @@ def pair_cases(draw, tier="quick"):
                  mean=draw(gen.vec(m, -1, 1)), data=draw(gen.vec(m, -2, 2)),
                  # the mean may be a scalar broadcast over the geometry
                  mean_kind=draw(st.sampled_from(["vector", "vector", "scalar"])))
+        if draw(st.sampled_from([False, False, True])):
+            # data with entries that are exactly zero (padding, integer counts): they count like any other entry
+            zidx = draw(st.lists(st.integers(0, m - 1), min_size=1, max_size=m, unique=True))
+            c["data"] = [0.0 if i in zidx else v for i, v in enumerate(c["data"])]
+            c["zeros_in_data"] = True
     return c
 
 
@@ -102,7 +107,8 @@ def proportional_to_own_density(target, sh, sc, what):
 
 def run_pair(c, rec):
     import cuqi
-    tags = {"kind": c["kind"], "interface": c["interface"], "route": c["route"], "mean": c.get("mean_kind", "vector")}
+    tags = {"kind": c["kind"], "interface": c["interface"], "route": c["route"], "mean": c.get("mean_kind", "vector"),
+            "zeros_in_data": bool(c.get("zeros_in_data"))}
     if c["kind"] == "gmrf":
         tags.update(bc=c["bc"], order=c["order"], pd=c["pd"])
     if rec.classify(tags, True):
